@@ -620,8 +620,14 @@ ExpectedWriteMissing ==
   ELSE IF msgQ # <<>> THEN HeadNotWritten
   ELSE V("C03", "stalled", <<Ln.unread>>)
 
+\* a panic of the context is C04's concern whatever caused it; when the packet being handled is one the client owed an
+\* acknowledgement (C08) or a delivery (C07) for, that obligation is broken by the same step
+PanicTags ==
+  <<"C04">> \o (IF netIn # <<>> /\ HandlePkt(S, Head(netIn)).wr # <<>> THEN <<"C08">> ELSE <<>>)
+            \o (IF netIn # <<>> /\ Head(netIn).t = "PUBLISH" /\ Head(netIn).sids # <<>> THEN <<"C07">> ELSE <<>>)
+
 ClassifyCtxEnd(res) ==
-  IF res.r = "panic" THEN V("C04", "panic-in-context", IF "msg" \in DOMAIN res THEN res.msg ELSE "")
+  IF res.r = "panic" THEN V(PanicTags, "panic-in-context", IF "msg" \in DOMAIN res THEN res.msg ELSE "")
   ELSE IF res.r = "pending" THEN
          (IF inCtx = "spur" /\ ~NoWorkLeft THEN V(<<"C03", "C16">>, "work-without-wakeup", <<Len(msgQ), Len(netIn), Ln.unread>>)
           ELSE IF retd # <<>> THEN V("C13", "no-return", retd[1].kind)
